@@ -20,7 +20,7 @@ LEAN_MODULES = ["MpfVerif.Props.C17"]
 PROPS_FILE = "MpfVerif/Props/C17.lean"
 GEN = []
 MANIFEST = {
-  "text": "Proof on a Lean model of RunningShow (mpf/assets/show.py) as driven by the show player: for every show (step durations, speed, loop count, start step), every number of loops and every lateness of the loop's timer callbacks, the k-th executed step gets exactly the start time t0 + sum of the preceding executed steps' durations divided by the speed (absolute accumulation, no drift) and the steps follow each other cyclically; for every sequence of play/stop/pause/resume/advance/step_back/update requests and timer firings a show instance posts played, stopped and completed at most once each (completed only together with stopped), never has more than one live step timer (the one it can cancel), plays no step and keeps no timer once it is stopped or completed whatever requests arrive later, and has cleared its context in every player it used when it is stopped. The model is tied to the real show player / show controller / RunningShow / light player by a correspondence run on generated shows and control sequences on every check, with a model-independent oracle on effect timestamps, events and a twin machine without shows.",
+  "text": "Proof on a Lean model of RunningShow (mpf/assets/show.py) as driven by the show player: for every show (step durations, speed, loop count, start step), every number of loops and every lateness of the loop's timer callbacks, the k-th executed step gets exactly the start time t0 + sum of the preceding executed steps' durations divided by the speed (absolute accumulation, no drift) and the steps follow each other cyclically; for every sequence of play/stop/pause/resume/advance/step_back/update requests and timer firings a show instance posts played exactly once, stopped exactly once iff it ends up stopped, completed at most once and only in the stopping step (clean-up, stopped, the request's own events, completed - in this order), looped exactly once per consumed loop, nothing but pause acknowledgements after stopped; it never has more than one live step timer (the one it can cancel), plays no step and keeps no timer once it is stopped or completed whatever requests arrive later, and has cleared its context in every player it used when it is stopped. The model is tied to the real show player / show controller / RunningShow / light player by a correspondence run on generated shows and control sequences on every check, with a model-independent oracle on effect timestamps, events and a twin machine without shows.",
   "note": "Trusted: Lean kernel + {propext, Classical.choice, Quot.sound}; the hand-written model Model/Show.lean (validated only by differential runs); float division duration/speed is exact only for the generated dyadic values (others are outside the model); sync_ms, show tokens, show queues/pools, block_queue, replace_or_advance_show's keep-the-old-instance shortcuts and players other than lights/events are outside the model; the clean-up of the light stacks themselves is checked by the oracle (twin machine) and by C09's model, not proved here.",
   "technique": "Lean 4 theorems (invariants by induction over all request sequences; schedule as a prefix of the absolute schedule for all latenesses) on a hand model + differential correspondence with real shows + schedule/clean-up oracle against a twin machine",
   "translated": False,
@@ -363,6 +363,13 @@ def oracle(run, case):
                 inst["speed"] = SPEEDS[act[5:]]
             for e in evs:
                 inst["count"][e] += 1
+            if act and act.startswith("speed"):
+                inst["updated"] = True
+            if act == "fire" and play["manual"]:
+                # a manual_advance show has no step timer at all: steps run on advance/step_back/resume requests only
+                fails.append(("update-resets-manual-advance" if inst.get("updated") else "manual-show-steps-by-itself",
+                              {"show": name, "at": head["t"], "obs": obs}))
+                break
             if act == "pause":
                 inst["paused"] = True
             elif act in ("resume", "advance", "back"):
@@ -558,11 +565,24 @@ CORPUS = [
 ]
 
 
+# D30: an update request (speed) for a manual_advance show; oracle only (the model follows the repaired code, where an
+# update that does not mention manual_advance leaves it alone)
+MANUAL_UPDATE = [
+    {"shows": {"A": sh([2, 2, 2], manual=True)}, "slow": False, "bg": True, "tail": 64, "keep": 2,
+     "ops": [[0, "A", "play"], [8, "A", "speed2"], [4, "A", "advance"], [40, "A", "stop"], [2, "A", "advance"]]},
+    {"shows": {"A": sh([4, 2], manual=True, loops=1), "B": sh([2, 2], prio=5)}, "slow": False, "bg": False, "tail": 64, "keep": 3,
+     "ops": [[0, "A", "play"], [0, "B", "play"], [6, "A", "advance"], [6, "A", "speed0.5"], [2, "A", "back"], [50, "A", "stop"],
+             [0, "B", "stop"], [2, "A", "resume"]]},
+]
+
+
 def run(ctx):
     model = None if getattr(ctx, "model_unavailable", False) else leanproc.LeanProc(ID)
     try:
         for case in CORPUS:
             one_case(ctx, model, case)
+        for case in MANUAL_UPDATE:
+            one_case(ctx, None, case)
         for i in range(ctx.n(450, 4000)):
             one_case(ctx, model, gen_case(ctx.rng("case", i)))
     finally:
